@@ -25,7 +25,7 @@ theorem status_documented_full (hc : HConf) (healthy : Bool) (b : Broker) (rq : 
     DocFull hc healthy b rq (HttpFull.serve hc healthy b rq).1 :=
   serve_doc hc healthy b rq
 
-/-- No request to any registered route is answered 500 while the daemon is healthy (F18 repaired:
+/-- No request to any registered route is answered 500 while the daemon is healthy (F24 repaired:
 `PlainText` no longer panics on the nil result of the two debug handlers). -/
 theorem no_500_full (hc : HConf) (b : Broker) (rq : Request) :
     (HttpFull.serve hc true b rq).1.status ≠ .s500 := by
@@ -39,7 +39,7 @@ theorem external_only_pprof (hc : HConf) (healthy : Bool) (b : Broker) (rq : Req
     ∃ name, routeFull rq.method rq.path = .handler name .raw :=
   (serve_doc hc healthy b rq).ext h
 
-/-- F18, before the repair: the decorator turned the nil result of `/debug/freememory` (and of a
+/-- F24, before the repair: the decorator turned the nil result of `/debug/freememory` (and of a
 valid `/debug/setblockrate`) into 500 INTERNAL_ERROR. After it: an empty 200. -/
 theorem debug_nil_result (hc : HConf) (healthy : Bool) (b : Broker) (rq : Request) :
     renderPlainOld (runFull hc healthy b rq "freeMemory").1 = ⟨.s500, true, true, .errJson "INTERNAL_ERROR"⟩ ∧
